@@ -354,14 +354,19 @@ class TCPPacketGenerator(Device, OutMixIn):
                 f"Congestion window size = {self.congestion_control.cwnd:.1f}, last ack = {ackno}."
             )
 
-            if ack.packet_id in self.timers:
-                self.timers[ack.packet_id].stop()
-                del self.timers[ack.packet_id]
-                del self.sent_packets[ack.packet_id]
+            # the acknowledgement is cumulative: every segment below ackno has been
+            # received, whichever segment triggered this ack
+            for seqno in [seqno for seqno in self.timers if seqno < ackno]:
+                self.timers[seqno].stop()
+                del self.timers[seqno]
+                del self.sent_packets[seqno]
 
             self.cwnd_avaialbe.put(True)
 
     def resend_packet(self, seqno: int):
+        if seqno not in self.sent_packets:
+            # nothing outstanding at seqno (e.g. duplicate acks of the last byte sent)
+            return
         resent_pkt = self.sent_packets[seqno]
         resent_pkt.time = self.env.now
         self.dprint(
